@@ -522,6 +522,18 @@ theorem ref_finder_leftmost (o : Ref.Opts) (inp : Array Nat) (ncaps : Nat) (node
     have := Ref.refFind_none_up o inp ncaps node (i' - i) i h
     rwa [show i + (i' - i) = i' by omega] at this
 
+/-- With the ECMA-262 reference matcher itself as the engine (code-unit mode) goja's `execRegexp` IS
+RegExpBuiltinExec and the fast `Symbol.search` IS the generic one — no hypothesis left: the reference finder is
+`Leftmost` (`Ref.refFinderCU_leftmost`). -/
+theorem exec_protocol_for_reference (o : Ref.Opts) (ncaps : Nat) (node : Ref.Node) (units : List Nat)
+    (fl : RFlags) (li : Nat) :
+    execRegexp fl (Ref.refFinderCU o ncaps node units) units.length li =
+        specExec fl (Ref.refFinderCU o ncaps node units) units.length li ∧
+    fastSearch fl (Ref.refFinderCU o ncaps node units) units.length li =
+        genericSearch fl (Ref.refFinderCU o ncaps node units) units.length li :=
+  ⟨exec_lastIndex_protocol fl _ _ li (Ref.refFinderCU_leftmost o ncaps node units),
+   fastSearch_eq_generic fl _ _ li (Ref.refFinderCU_leftmost o ncaps node units)⟩
+
 /-! ## non-vacuity examples (tests on literals, not theorems) -/
 
 example : Leftmost witnessFinder 3 := by
